@@ -433,6 +433,8 @@ class Runner:
                 continue
             if k.get("check") and k["check"] != o["id"] and k["check"] not in failing:
                 continue
+            if k.get("checks") and o["id"] not in k["checks"]:
+                continue
             if k.get("where"):
                 try:
                     if not eval_pred(k["where"], dict(assignment, **ent.params)):
